@@ -388,8 +388,20 @@ impl ProcfsHandle {
         // NOTE: There is technically a race here, but it relies the target path
         //       being a magic-link and then another thing being mounted on top.
         //       This is the same race as below.
-        if self.readlink(base, subpath).is_err() {
-            return self.open(base, subpath, oflags).map(File::from);
+        if let Err(err) = self.readlink(base, subpath) {
+            // Only "this is not a symlink" (readlinkat(2) reports EINVAL, or
+            // ENOENT for the empty path of a non-symlink) and "no such file"
+            // (which the open below reports itself) mean that an O_NOFOLLOW
+            // open is what the caller wants. Any other failure (EMFILE,
+            // ENOMEM, EINTR, ...) says nothing about the target, and falling
+            // back to an O_NOFOLLOW open would hand out a handle to the
+            // magic-link itself, rather than to its target, for O_PATH opens.
+            return match err.kind() {
+                ErrorKind::OsError(Some(libc::EINVAL)) | ErrorKind::OsError(Some(libc::ENOENT)) => {
+                    self.open(base, subpath, oflags).map(File::from)
+                }
+                _ => Err(err),
+            };
         }
 
         // Get a no-follow handle to the parent of the magic-link.
